@@ -76,6 +76,10 @@ pub enum HSpec {
     Ident,
     Zero,
     Random,
+    /// a BuildHasher that is *inconsistent* (safe but contract-breaking user code): it hands out
+    /// a differently seeded hasher after every n-th call. Only memory safety can be demanded
+    /// of a cache using it (C03: "no sequence of safe API calls ...").
+    Chaos(u8),
 }
 
 #[derive(Clone, Copy, Debug, PartialEq, Serialize, Deserialize)]
